@@ -33,6 +33,10 @@ pub struct Case {
     /// snapshot tick on the secondary before it leaves (its databases are on its disk)
     pub joiner_snapshots: bool,
     pub schedule: Vec<u16>,
+    /// the primary restarts cleanly (snapshot at shutdown, operation log kept) while the secondary is away, before it
+    /// accepts the `away` commands: what it logs afterwards has to be found by the incremental synchronisation, too
+    #[serde(default)]
+    pub primary_restarts: bool,
 }
 
 fn cmd_strategy() -> impl Strategy<Value = Cmd> {
@@ -56,8 +60,9 @@ pub fn case_strategy() -> impl Strategy<Value = Case> {
         select(vec!["kept", "kept", "empty"]),
         any::<bool>(),
         prop::collection::vec(prop_oneof![3 => Just(0u16), 1 => any::<u16>()], 0..50),
+        prop::bool::weighted(0.3),
     )
-        .prop_map(|(before, away, during, leave, disk, joiner_snapshots, schedule)| Case { before, away, during, leave: leave.to_string(), disk: disk.to_string(), joiner_snapshots, schedule })
+        .prop_map(|(before, away, during, leave, disk, joiner_snapshots, schedule, primary_restarts)| Case { before, away, during, leave: leave.to_string(), disk: disk.to_string(), joiner_snapshots, schedule, primary_restarts })
 }
 
 fn dbname(i: usize) -> String {
@@ -156,6 +161,15 @@ pub fn run_case(ctx: &Ctx, case: &Case) -> Outcome {
         settle(&mut c, "after departure", &mut fail);
         if case.disk == "empty" {
             let _ = std::fs::remove_dir_all(&c.nodes[1].dir);
+        }
+    }
+    if fail.is_none() && case.primary_restarts {
+        c.nodes[0].node.as_ref().unwrap().shutdown();
+        c.kill(0);
+        c.boot(0);
+        settle(&mut c, "after the restart of the primary", &mut fail);
+        if fail.is_none() && c.role(0) != Some(nundb::bo::ClusterRole::Primary) {
+            fail = Some(("C05|set-up".into(), "the restarted primary, alone, did not become the primary again".into()));
         }
     }
     // ---- while away
@@ -506,7 +520,10 @@ fn away_scripts(max_len: usize) -> Vec<Case> {
                 i /= n;
             }
             for leave in ["clean", "kill"] {
-                out.push(Case { before: vec![Cmd::Snapshot { db: 0 }], away: away.clone(), during: vec![], leave: leave.to_string(), disk: "kept".to_string(), joiner_snapshots: true, schedule: vec![] });
+                out.push(Case { before: vec![Cmd::Snapshot { db: 0 }], away: away.clone(), during: vec![], leave: leave.to_string(), disk: "kept".to_string(), joiner_snapshots: true, schedule: vec![], primary_restarts: false });
+                if len <= 2 {
+                    out.push(Case { before: vec![Cmd::Snapshot { db: 0 }], away: away.clone(), during: vec![], leave: leave.to_string(), disk: "kept".to_string(), joiner_snapshots: true, schedule: vec![], primary_restarts: true });
+                }
             }
         }
     }
